@@ -851,3 +851,45 @@ def attrs_reads(chk, rule: str) -> None:
                               why=f"{norm(up)[:80]} reads {risky} from self.attrs; DataContainer.set_attrs replaces booleans / None in that dict by strings at the end of every fit, "
                                   "so from the second fit on the value is the (truthy) string - read configuration from self._params / get_params()")
     chk.ok(rule, "xeofs", None, construct=f"<reads of self.attrs examined: {n}>", nontrivial=False)
+
+
+# ---------------------------------------------------------------------------------------------------------------------
+# comparison of the labels of new data with the labels recorded at fit: element by element, IN ORDER
+ORDERED_CMP = {"equals", "identical", "array_equal", "array_equiv", "assert_equal", "assert_identical"}
+SETLIKE_CMP = {"symmetric_difference", "difference", "issubset", "issuperset", "isin", "intersection", "union", "isdisjoint", "set", "frozenset", "sorted", "unique"}
+
+
+def ordered_label_comparison(chk, rule: str, fn: FuncInfo, state_attrs: tuple[str, ...], why: str) -> None:
+    """<rule>: the function compares labels of its data parameter with labels recorded at fit (self.<state_attrs>) through
+    an order-sensitive comparison (``a.equals(b)``, ``a.identical(b)``, ``np.array_equal(a, b)``, ``(a == b).all()``); a
+    comparison of the label SETS (symmetric_difference, isin, set(), sorted()) accepts the same labels in another order, and
+    everything downstream of the stacker works by position"""
+    ff = FuncFacts.of(fn)
+    params = [p for p in fn.params if p not in ("self", "cls")]
+
+    def side(e) -> str:
+        ps = ff.paths(e, spine_only=True)
+        if any(p.atom.kind == "selfattr" and p.atom.name.split(".")[-1] in state_attrs for p in ps):
+            return "state"
+        if any(p.atom.kind == "param" and p.atom.name in params for p in ps):
+            return "data"
+        return "?"
+
+    ordered, setlike = [], []
+    for c in ast.walk(fn.node):
+        if isinstance(c, ast.Call):
+            name = c.func.attr if isinstance(c.func, ast.Attribute) else c.func.id if isinstance(c.func, ast.Name) else ""
+            opnds = ([c.func.value] if isinstance(c.func, ast.Attribute) and not (dotted(c.func) or "").startswith(("np.", "numpy.", "xr.", "xarray.")) else []) + list(c.args)
+            sides = {side(x) for x in opnds}
+            if name in ORDERED_CMP and {"state", "data"} <= sides:
+                ordered.append(c)
+            elif name in SETLIKE_CMP and ("state" in sides or "data" in sides):
+                setlike.append(c)
+        elif isinstance(c, ast.Compare) and len(c.ops) == 1 and isinstance(c.ops[0], (ast.Eq, ast.NotEq)):
+            sides = {side(c.left), side(c.comparators[0])}
+            if {"state", "data"} <= sides:
+                ordered.append(c)
+    ok = bool(ordered) and not setlike
+    node = (setlike or ordered or [fn.node])[0]
+    chk.check(ok, rule, fn, node, construct=f"{fn.qualname.split('.')[-1]}: labels of the data compared in order with those recorded at fit",
+              why=why + (f" (order-insensitive comparison `{norm(setlike[0])[:70]}`)" if setlike else " (no order-sensitive comparison of the data's labels with the recorded ones found)"))
